@@ -340,6 +340,18 @@ example :
   decide
 example (w : World) : noAttempt "dev" w [] := trivial
 
+/-- the phase after the device session (seeded change C12-X1): `do-approve` has finished its dialogue
+(22 steps: … devEnd) and has still to append RES:/END: to the history and to write the status file;
+it holds the lock, a contender arriving now is turned away, and `holder_excludes_all_contenders`
+applies to everything the holder writes from here to its exit. -/
+example :
+    let w := run (List.replicate 19 (.step 0) ++ [.cexec 0] ++ List.replicate 2 (.step 0)) (mkWorld exSpecs)
+    (w.procs 0).holds = true ∧ (w.procs 0).prog.contains .status = true ∧
+    (w.procs 0).prog.contains (.hist "\"END:\"") = true ∧ w.trace.head?.map (·.step) = some .devEnd ∧
+    ((run (List.replicate 12 (.step 1)) w).procs 1).lost = true ∧
+    ((run (List.replicate 12 (.step 1)) w).procs 1).st = .exited 1 := by
+  decide
+
 /-! ## Part B: the regenerated skeleton and call graph -/
 
 open NA.Gen.LockSkel in
